@@ -588,7 +588,9 @@ class SymReal:
 
     # numpy object-dtype ufuncs call these methods
     def sqrt(s):
-        engine().assume(s.t >= 0, kind="domain")
+        # Python semantics: outside the domain the call raises (forks on the sign)
+        if bool(SymBool(s.t < 0)):
+            raise ValueError("math domain error")
         return SymNorm(s.t)
 
     def exp(s):
@@ -597,15 +599,18 @@ class SymReal:
         return SymReal(r)
 
     def log(s):
-        engine().assume(s.t > 0, kind="domain")
+        if bool(SymBool(s.t <= 0)):
+            raise ValueError("math domain error")
         return SymReal(uf("log")(s.t))
 
     def log10(s):
-        engine().assume(s.t > 0, kind="domain")
+        if bool(SymBool(s.t <= 0)):
+            raise ValueError("math domain error")
         return SymReal(uf("log10")(s.t))
 
     def log1p(s):
-        engine().assume(s.t > -1, kind="domain")
+        if bool(SymBool(s.t <= -1)):
+            raise ValueError("math domain error")
         return SymReal(uf("log")(1 + s.t))
 
     def sin(s):
